@@ -4,8 +4,10 @@ prints the markdown table for DESIGN.md section 10.6."""
 import glob, json, os, shutil, sys
 VERIF = os.path.dirname(os.path.dirname(os.path.abspath(__file__)))
 rows = []
+# confirmed to fail their demo, but they do not break the property as stated (see DESIGN.md)
+NOT_KEPT = {('C09', 'r4-2')}
 for d in sorted(glob.glob('/tmp/wt_C*/seeded/*')) + sorted(glob.glob('/tmp/wt2_C*/seeded/*')) + \
-        sorted(glob.glob('/tmp/wt3_C*/seeded/*')):
+        sorted(glob.glob('/tmp/wt3_C*/seeded/*')) + sorted(glob.glob('/tmp/wt4_C*/seeded/*')):
     mp = os.path.join(d, 'meta.json')
     if not os.path.exists(mp):
         continue
@@ -14,8 +16,10 @@ for d in sorted(glob.glob('/tmp/wt_C*/seeded/*')) + sorted(glob.glob('/tmp/wt2_C
     if not c:
         continue
     top = d.split('/')[2]
-    pid = top.replace('wt3_', '').replace('wt2_', '').replace('wt_', '')
-    n = ('r2-' if top.startswith('wt2_') else 'r3-' if top.startswith('wt3_') else '') + os.path.basename(d)
+    pid = top.replace('wt4_', '').replace('wt3_', '').replace('wt2_', '').replace('wt_', '')
+    n = ('r2-' if top.startswith('wt2_') else 'r3-' if top.startswith('wt3_') else 'r4-' if top.startswith('wt4_') else '') + os.path.basename(d)
+    if (pid, n) in NOT_KEPT:
+        continue
     ok = c.get('demo_passes_without') and c.get('patch_applies') and c.get('demo_fails_with') and c.get('tests_pass_with')
     if not ok:
         print('NOT KEPT', d, {k: v for k, v in c.items() if k != 'checks'})
